@@ -59,7 +59,9 @@ class ConstantFoldInterpPattern(RewritePattern):
                 for operand in op.operands
             )
             results = self.interpreter.run_op(op, args)
-        except InterpretationError:
+        except (InterpretationError, AssertionError):
+            # The operation cannot be evaluated (e.g. no implementation, or a division
+            # by zero), leave it in place
             return
 
         new_ops: list[Operation] = []
